@@ -6,7 +6,7 @@
     in the composition theorems the handler is ANY script and the chain ANY list.
     [repaired] = the code after the two fix: commits, [pinned] = before (D2, D3). *)
 From WM Require Import Base.Prelude Simple.Model Simple.Monitor Simple.Throttle
-  Simple.ThrottleCtx Simple.Proofs Simple.ThrottleProofs Simple.ThrottleCtxProofs Simple.DelayProofs Simple.ComposeProofs.
+  Simple.ThrottleCtx Simple.Proofs Simple.ThrottleProofs Simple.ThrottleCtxProofs Simple.DelayProofs Simple.ComposeProofs Simple.AcceptProofs.
 
 (** Timeout: the result is the handler's; during the call ... *)
 Theorem C19_timeout_transparent : forall d (h : handler) w,
@@ -204,7 +204,35 @@ Theorem C19_composes_with_retry_refuted : exists maxr inner s w, forallb is_simp
   /\ w_calls (fst (mw_sem pinned (MRetry maxr) (scripted (map_res (effo inner) s)) w)) = 4%nat.
 Proof. exact composes_with_retry_refuted. Qed.
 
+(** Retry in the MIDDLE of a chain: [outer (Retry (inner h))] makes the attempts of the bare Retry
+    around the handler carrying inner's documented effects, and returns [eff outer] of its kind of
+    result (the layers pushed by outer Timeouts are alive while the loop reads the context) *)
+Theorem C19_composes_with_retry_middle : forall outer maxr inner s w,
+  forallb is_simple outer = true -> forallb is_simple inner = true ->
+  let Y := stack repaired (outer ++ MRetry maxr :: inner) (scripted s) w in
+  let B := mw_sem repaired (MRetry maxr) (scripted (map_res (effo inner) s)) w in
+  w_calls (fst Y) = w_calls (fst B) /\ rkind (snd Y) = eff outer (rkind (snd B)).
+Proof. exact composes_with_retry_middle. Qed.
+Theorem C19_composes_with_retry_middle_same_handler : forall outer maxr inner s w,
+  forallb is_simple outer = true -> forallb is_simple inner = true ->
+  forallb (fun m => negb (changes_result m)) inner = true ->
+  w_calls (fst (stack repaired (outer ++ MRetry maxr :: inner) (scripted s) w))
+  = w_calls (fst (mw_sem repaired (MRetry maxr) (scripted s) w)).
+Proof. exact composes_with_retry_middle_same. Qed.
+
+(** THE tie between the theorems and the check: for EVERY chain (any length, any order, Retry
+    anywhere), every script and every starting message, what the repaired model does is accepted
+    by [accept] — the function checks/c19.py evaluates on what the real middlewares did.  (Chains
+    with a second Retry inside the first are outside the acceptor: it returns true for them.) *)
+Theorem C19_model_accepted : forall mws s w0,
+  let '(tr, r, v) := observe (stack repaired mws (scripted s)) w0 in
+  accept mws s w0 tr r v = true.
+Proof. exact model_accepted. Qed.
+
 Print Assumptions C19_timeout_transparent.
+Print Assumptions C19_composes_with_retry_middle.
+Print Assumptions C19_composes_with_retry_middle_same_handler.
+Print Assumptions C19_model_accepted.
 Print Assumptions C19_timeout_deadline_visible.
 Print Assumptions C19_correlation_transparent.
 Print Assumptions C19_correlation_never_overwrites.
